@@ -17,6 +17,7 @@ func (m *MapCodec) Read(r *ReadBuf, p unsafe.Pointer) error {
 	// p is a pointer to a map pointer
 	if *(*unsafe.Pointer)(p) == nil {
 		*(*unsafe.Pointer)(p) = unsafe.Pointer(reflect.MakeMap(m.rtype).Pointer())
+		verifPoint(vpMapReadAfterNew)
 	}
 	mp := *(*unsafe.Pointer)(p)
 
@@ -55,6 +56,7 @@ func (m *MapCodec) Read(r *ReadBuf, p unsafe.Pointer) error {
 				return fmt.Errorf("failed to read value for map key %s. %w", key, err)
 			}
 			// Put the thing in the thing
+			verifPoint(vpMapReadBeforeAssign)
 			mapassign(unpackEFace(m.rtype).data, mp, unsafe.Pointer(&key), val)
 		}
 	}
@@ -135,6 +137,7 @@ func (m *MapCodec) Write(w *WriteBuf, p unsafe.Pointer) {
 
 		sc.Write(w, k)
 		m.valueCodec.Write(w, v)
+		verifPoint(vpMapWriteInLoop)
 
 		mapiternext(iter)
 	}
